@@ -848,14 +848,20 @@ package url
 //@            || state == StateHost || state == StateHostname || state == StatePort || state == StatePathStart)) ==> len(url.path.p) == 0
 //@   loop 1 step (prev(state) == StatePath && (prev(input.pointer) + 1 >= input.length || r == 0x2F || (special(url, url.scheme) && r == 0x5C) || (!stateOverridden && (r == 0x3F || r == 0x23))) && p.opts.collapseConsecutiveSlashes && special(url, url.scheme)) ==> (forall k int :: (0 <= k && k < len(url.path.p) - 1) ==> ((k < prev(len(url.path.p)) - 1 && url.path.p[k] == prev(url.path.p[k])) || url.path.p[k] != ""))   [C16 path-state-collapse-bridge]
 //@   loop 1 step (prev(state) == StatePath && !(prev(input.pointer) + 1 >= input.length || r == 0x2F || (special(url, url.scheme) && r == 0x5C) || (!stateOverridden && (r == 0x3F || r == 0x23)))) ==> (len(url.path.p) == prev(len(url.path.p)) && url.path.opaque == prev(url.path.opaque) && (forall k int :: (0 <= k && k < prev(len(url.path.p))) ==> url.path.p[k] == prev(url.path.p[k])))   [C01,C16 path-state-code-point-keeps-path]
-//@   loop 1 invariant ((stateOverride == StateHost || stateOverride == StateHostname) && (state == StateHost || state == StateHostname) && !p.opts.acceptInvalidCodepoints) ==> bufv(buffer) == specRuneStr(inC(url), input.pointer + 1)
-//@   loop 1 invariant ((stateOverride == StateHost || stateOverride == StateHostname) && (state == StateHost || state == StateHostname)) ==> (specHostPlain(inC(url), input.pointer + 1, special(url, url.scheme)) && !bracketFlag)
+//@   loop 1 invariant ((stateOverride == StateHost || stateOverride == StateHostname) && (state == StateHost || state == StateHostname) && specHostPlain(inC(url), input.pointer + 1, special(url, url.scheme))) ==> !bracketFlag
+//@   loop 1 invariant ((stateOverride == StateHost || stateOverride == StateHostname) && (state == StateHost || state == StateHostname) && specHostPlain(inC(url), input.pointer + 1, special(url, url.scheme)) && !p.opts.acceptInvalidCodepoints) ==> bufv(buffer) == specRuneStr(inC(url), input.pointer + 1)
+//@   loop 1 invariant ((stateOverride == StateHost || stateOverride == StateHostname) && (state == StateHost || state == StateHostname)) ==> (input.pointer + 1 <= hostEnd(url) || (hostEnd(url) < inN(url) && inC(url)[hostEnd(url)] == 0x5B))
+//@   loop 1 invariant ((stateOverride == StateHost || stateOverride == StateHostname) && (state == StateHost || state == StateHostname) && input.pointer == -1) ==> bufv(buffer) == ""
+//@   loop 1 invariant ((stateOverride == StateHost || stateOverride == StateHostname) && (state == StateHost || state == StateHostname) && input.pointer >= 0) ==> url.scheme != "file"
 //@   loop 1 invariant ((stateOverride == StateHost || stateOverride == StateHostname) && state == StateFileHost) ==> (bufv(buffer) == specRuneStr(inC(url), input.pointer + 1) && specFileHostPlain(inC(url), input.pointer + 1)
 //@            && url.scheme == "file")
 //@   loop 1 invariant ((stateOverride == StateHost || stateOverride == StateHostname) && (state == StateHost || state == StateHostname)) ==> url.scheme == old(url.scheme)
 //@   loop 1 invariant ((stateOverride == StateHost || stateOverride == StateHostname) && state == StateFileHost) ==> old(url.scheme) == "file"
-//@   loop 1 invariant ((stateOverride == StateHost || stateOverride == StateHostname) && state == StatePort) ==> (old(url.scheme) != "file" && stateOverride == StateHost && hostEnd(url) < inN(url) && inC(url)[hostEnd(url)] == 0x3A)
-//@   loop 1 invariant ((stateOverride == StateHost || stateOverride == StateHostname) && state == StatePort && !p.opts.acceptInvalidCodepoints && domainCaseS(url, hostText(url))) ==> (url.host != nil && *url.host == specHostASCII(hostText(url)))
+//@   loop 1 invariant ((stateOverride == StateHost || stateOverride == StateHostname) && state == StatePort) ==> (old(url.scheme) != "file" && stateOverride == StateHost && hostEnd(url) < inN(url) && (inC(url)[hostEnd(url)] == 0x3A || inC(url)[hostEnd(url)] == 0x5B))
+//@   loop 1 invariant ((stateOverride == StateHost || stateOverride == StateHostname) && state == StatePort && !p.opts.acceptInvalidCodepoints && inC(url)[hostEnd(url)] == 0x3A && domainCaseS(url, hostText(url))) ==> (url.host != nil && *url.host == specHostASCII(hostText(url)))
+//@   loop 1 step (prev(state) == StateOpaquePath && !stateOverridden && (r == 0x3F || r == 0x23)) ==> (firstQH(url) == prev(input.pointer) + 1 && url.path == prev(url.path)
+//@            && url.path.p == prev(url.path.p) && url.path.p[0] == prev(url.path.p[0]) && url.path.opaque == prev(url.path.opaque))   [C01 opaque-path-ends-at-the-first-delimiter]
+//@   loop 1 step input.pointer == prev(input.pointer) + 2 ==> (inC(url)[input.pointer] == 0x2F && inC(url)[input.pointer - 1] != 0x23 && inC(url)[input.pointer - 1] != 0x3F)   [C01 two-code-points-consumed-only-before-a-slash]
 //@   loop 1 invariant (stateOverride == StatePathStart && state == StatePathStart) ==> len(url.path.p) == 0
 //@   loop 1 invariant (old(url) == nil ? (old(baseUrl == nil || collapsedOK(baseUrl)) && (baseUrl == nil || shapeP(baseUrl))) : old(collapsedOK(url))) ==> collapsedOK(url)
 //@   loop 1 decreases specRank(state), input.length - input.pointer
